@@ -373,8 +373,9 @@ def bee_make(case):
         if e is None:
             headers.append(None)
             continue
-        prdb = m.BeeProtectRegionBlock(counter=bytes.fromhex(e["ctr"]))
-        hdr = m.BeeRegionHeader(prdb, bytes.fromhex(e["key"]), m.BeeKIB(bytes(range(16)), bytes(range(16, 32))))
+        prdb = m.BeeProtectRegionBlock(lock_options=e.get("lock", 0), counter=bytes.fromhex(e["ctr"]))
+        kib = e.get("kib") or [bytes(range(16)).hex(), bytes(range(16, 32)).hex()]
+        hdr = m.BeeRegionHeader(prdb, bytes.fromhex(e["key"]), m.BeeKIB(bytes.fromhex(kib[0]), bytes.fromhex(kib[1])))
         for (st, ln) in e["facs"]:
             hdr.add_fac(m.BeeFacRegion(st, ln, e.get("level", 0)))
         headers.append(hdr)
@@ -388,7 +389,8 @@ def gen_bee_case(rng, big):
     engines = [None, None]
     idx = {"e0": [0], "e1": [1], "both": [0, 1]}[shape]
     for i in idx:
-        engines[i] = {"key": hx(rng.randbytes(16)), "ctr": hx(rng.randbytes(12) + bytes(4)), "facs": [], "level": rng.randrange(4)}
+        engines[i] = {"key": hx(rng.randbytes(16)), "ctr": hx(rng.randbytes(12) + bytes(4)), "facs": [], "level": rng.randrange(4),
+                      "kib": [hx(rng.randbytes(16)), hx(rng.randbytes(16))], "lock": rng.choice([0, 0, 1, rng.getrandbits(32)])}
     for r in ranges:
         cand = [i for i in idx if len(engines[i]["facs"]) < 4]
         if not cand:
@@ -418,10 +420,33 @@ def eval_bee(s, bt, case):
     etok = f"{len(engines)} " + " ".join("none" if e is None else "some " + bee_engine_tok(e) for e in engines)
     i_enc = bt.add(f"bee_enc {base} {tok(img)} {etok}")
     i_hw = None
+    # region headers (EKIB + EPRDB) of the engines that have FAC regions: model correspondence + ROM-side parse
+    hdrs = []
+    for e, h in zip(engines, o.headers):
+        if e and e["facs"]:
+            r_h = pyres(h.export)
+            kib = e.get("kib") or [bytes(range(16)).hex(), bytes(range(16, 32)).hex()]
+            i_h = bt.add(f"bee_hdr {bee_engine_tok(e)} {len(e['facs'])} " + " ".join(str(e.get('level', 0)) for _ in e["facs"])
+                         + f" {e.get('lock', 0)} {kib[0]} {kib[1]}")
+            i_u = bt.add(f"bee_unhdr {e['key']} {tok(r_h[1])}") if r_h[0] == "ok" else None
+            s.expect(r_h[0] == "ok" and len(r_h[1]) == 0x200, case, "BeeRegionHeader.export raised / wrong size on a valid configuration", r_h[0])
+            if r_h[0] == "ok":
+                # SPSDK's own parser (used by the `bee_binary_cfg` branch of load_from_config) reads its export back
+                from spsdk.image.bee import BeeRegionHeader
+                r_p = pyres(lambda: BeeRegionHeader.parse(r_h[1], sw_key=bytes.fromhex(e["key"])))
+                same = r_p[0] == "ok" and r_p[1]._prdb.counter == bytes.fromhex(e["ctr"]) and \
+                    [(f.start_addr, f.length) for f in r_p[1].fac_regions] == [tuple(f) for f in e["facs"]] and \
+                    pyres(r_p[1].encrypt_block, e["facs"][0][0], bytes(range(16))) == pyres(h.encrypt_block, e["facs"][0][0], bytes(range(16)))
+                s.expect(same, case, "BeeRegionHeader.parse(export()) does not give the same counter / FAC regions / block encryption", r_p[0])
+            hdrs.append((e, r_h, i_h, i_u))
+    i_hwh = None
     if s.expect(r_ct[0] == "ok", case, "BeeNxp.export_image raised on a valid configuration", r_ct):
         ct = r_ct[1]
         present = [e for e in engines if e]
         i_hw = bt.add(f"bee_hw {base} {tok(ct)} {len(present)} " + " ".join(bee_engine_tok(e) for e in present))
+        okh = [(e, r_h) for e, r_h, _, _ in hdrs if r_h[0] == "ok"]
+        if len(okh) == len([e for e in engines if e and e["facs"]]):
+            i_hwh = bt.add(f"bee_hwhdr {base} {tok(ct)} {len(okh)} " + " ".join(f"{e['key']} {tok(r_h[1])}" for e, r_h in okh))
         s.expect(len(img) <= len(ct) <= ceil16(len(img)), case, "encrypted BEE image has an impossible length", len(ct), len(img))
         bad = [hex(base + off) for off in range(0, len(img), 16)
                if not any(lo <= base + off <= hi for lo, hi in win) and ct[off:off + 16] != img[off:off + 16]]
@@ -448,6 +473,16 @@ def eval_bee(s, bt, case):
             first = next((i for i in range(len(img)) if hw is None or i >= len(hw) or hw[i] != img[i]), None)
             s.expect(good, case, "BEE: the engine holding the same key/nonce/FAC regions does not read the plaintext back from SPSDK's ciphertext",
                      None if first is None else {"first_bad_address": hex(base + first)}, "plaintext")
+        for e, r_h, i_h, i_u in hdrs:
+            s.compare(case, "ok:" + hexs(r_h[1]) if r_h[0] == "ok" else r_h[0], bt[i_h], "BeeRegionHeader.export: model differs")
+            if i_u is not None and bt[i_u] is not None:
+                want = f"ok:{e['key']}:{e['ctr']}:" + ",".join(f"{st}+{ln}" for st, ln in e["facs"])
+                s.expect(bt[i_u] == want, case, "BEE: the exported region header does not decrypt/parse (SW key, KIB) to the configured counter and FAC regions",
+                         bt[i_u], want)
+        if i_hwh is not None and bt[i_hwh] is not None:
+            hw = unhex_ok(bt[i_hwh])
+            s.expect(hw is not None and hw[:len(img)] == img, case,
+                     "BEE: the engine programmed from the exported region headers does not read the plaintext back from SPSDK's ciphertext")
     return finish
 
 
@@ -710,6 +745,363 @@ def gen_nxp_cases(rng, n):
     return out
 
 
+# =============================================================================================== KeyBlob constructor
+def gen_ctor_cases(rng, n):
+    out = []
+    for _ in range(n):
+        s0 = 1024 * rng.randrange(0, 1 << 21)
+        b = {"s": s0 + rng.choice([0, 0, 0, 16, 1]), "e": s0 + rng.choice([1023, 1024, 4095, 0, -1, 5000]), "key": hx(rng.randbytes(rng.choice([16, 16, 16, 15, 17, 24, 32, 0]))),
+             "ctr": hx(rng.randbytes(rng.choice([8, 8, 8, 7, 9, 16, 0]))), "fl": rng.choice([3, 3, 7, 0, 8, 15]), "zf": "00000000", "crc": ""}
+        if rng.random() < 0.1:
+            b["e"] = rng.choice([M32, M32 + 1])
+        b["e"] = max(0, b["e"])
+        out.append({"k": "ctor", "blob": b})
+    return out
+
+
+def eval_ctor(s, bt, case):
+    from spsdk.utils.crypto.otfad import KeyBlob
+    b = case["blob"]
+    klen, clen = len(b["key"]) // 2, len(b["ctr"]) // 2
+    s.note(case, nontrivial=True, cls=f"key{klen}/ctr{clen}")
+    r = pyres(lambda: KeyBlob(b["s"], b["e"], bytes.fromhex(b["key"]), bytes.fromhex(b["ctr"]), b["fl"], zero_fill=bytes(4)) and None)
+    i = bt.add(f"kb_ctor {otfad_blob_tok(b)}")
+    # the constructor documents "raises SPSDKError: When there is invalid key": key 16 bytes, counter 8 bytes
+    if klen != 16 or clen != 8:
+        s.expect(r[0] == "E:spsdk", case, "KeyBlob accepts a key / counter of the wrong size (an encrypted image made with it cannot be "
+                 "decrypted by the AES-128 engine, or encrypt_image fails later)", r[0], "E:spsdk")
+    return lambda: s.compare(case, r[0], bt[i], "KeyBlob constructor accept/reject: model differs")
+
+
+# =============================================================================================== OTFAD through SB2.1 (BD file)
+BD_HEAD = 'options { flags = 0x8; buildNumber = 0x1; productVersion = "1.00.00"; componentVersion = "1.00.00"; secureBinaryVersion = "2.1"; }\n'
+
+
+def gen_sb21_case(rng):
+    n = rng.choice([1, 1, 2, 3, 4])
+    ranges = gen_ranges(rng, n, 1024)
+    blobs, cmds = [], []
+    kek = hx(rng.randbytes(16))
+    for i, (s0, e0) in enumerate(ranges):
+        low = rng.choice([0x3FF, 0x3FF, 0x3FF, 0x3FB, 0x3FB, 0x3FD, 0x3FE, 0x400])     # flag bits as the LOW BITS of `end` (elftosb BD convention)
+        end = e0 - 0x400 + low
+        if end > M32:
+            end = e0 - 1
+        b = {"s": s0, "e": end, "key": hx(rng.randbytes(16 if rng.random() < 0.93 else 32)), "ctr": hx(rng.randbytes(8)), "swap": rng.random() < 0.25}
+        blobs.append(b)
+        if rng.random() < 0.8:
+            ln = rng.choice([1, 4, 16, 100, 512, 513, 1500])
+            ln = min(ln, max(1, (e0 - s0) - 512))
+            room = (e0 - s0) - (ln + 511) // 512 * 512
+            off = 0 if (rng.random() < 0.6 or room <= 0) else 16 * rng.randrange(0, room // 16 + 1)
+            cmds.append({"op": "encrypt", "id": i, "addr": s0 + off, "data": [ln, rng.getrandbits(32)]})
+    for i in range(len(blobs)):
+        cmds.append({"op": "keywrap", "id": i, "addr": 0x1000 + 64 * i, "rnd": hx(rng.randbytes(4))})
+    return {"k": "sb21", "blobs": blobs, "cmds": cmds, "kek": kek, "via": rng.choice(["bd", "bd", "dict"])}
+
+
+def sb21_config(case, scratch):
+    """The parsed configuration: through the real BD lexer/parser, or (for byte_swap) as the YAML path would give it."""
+    import os
+    blobs = case["blobs"]
+    if case["via"] == "bd":
+        from spsdk.sbfile.sb2 import sly_bd_parser
+        srcs, body = [], []
+        for j, c in enumerate(case["cmds"]):
+            if c["op"] == "encrypt":
+                fn = os.path.join(scratch, f"sb21_{j}.bin")
+                with open(fn, "wb") as fh:
+                    fh.write(mk_image(c["data"][1], c["data"][0]))
+                srcs.append(f'f{j} = "{fn}";')
+                body.append(f"encrypt({c['id']}){{ load f{j} > {hex(c['addr'])}; }}")
+            else:
+                body.append(f"keywrap({c['id']}){{ load {{{{{case['kek']}}}}} > {hex(c['addr'])}; }}")
+        text = BD_HEAD + "sources { " + " ".join(srcs) + " }\n"
+        for i, b in enumerate(blobs):
+            text += f'keyblob({i}){{ ( start = {hex(b["s"])}, end = {hex(b["e"])}, key = "{b["key"]}", counter = "{b["ctr"]}" ) }}\n'
+        text += "section (0) {\n" + "\n".join(body) + "\n}\n"
+        conf = sly_bd_parser.BDParser().parse(text=text, extern=[])
+        if conf is None:
+            raise ValueError("BD text not parsed")
+        return conf
+    cmds = []
+    for j, c in enumerate(case["cmds"]):
+        if c["op"] == "encrypt":
+            fn = os.path.join(scratch, f"sb21_{j}.bin")
+            with open(fn, "wb") as fh:
+                fh.write(mk_image(c["data"][1], c["data"][0]))
+            cmds.append({"encrypt": {"keyblob_id": c["id"], "file": fn, "address": c["addr"]}})
+        else:
+            cmds.append({"keywrap": {"keyblob_id": c["id"], "address": c["addr"], "values": case["kek"]}})
+    return {"keyblobs": [{"keyblob_id": i, "keyblob_content": [{"start": b["s"], "end": b["e"], "key": b["key"], "counter": b["ctr"], "byte_swap": b["swap"]}]}
+                         for i, b in enumerate(blobs)], "sections": [{"section_id": 0, "commands": cmds}]}
+
+
+def eval_sb21(s, bt, case):
+    import os
+    from spsdk.sbfile.sb2.sb_21_helper import SB21Helper
+    from spsdk.utils.crypto import otfad as otfad_mod
+    blobs = case["blobs"]
+    scratch = os.environ.get("VERIF_SCRATCH", "/tmp")
+    s.note(case, nontrivial=True, cls=case["via"] + f"/{len(blobs)}b")
+
+    def real():
+        conf = sb21_config(case, scratch)
+        helper = SB21Helper([scratch])
+        out = []
+        saved = otfad_mod.random_bytes
+        cur = [b""]
+        otfad_mod.random_bytes = lambda n: cur[0]       # pins the random `zero_fill` of the wrapped key blobs
+        try:
+            for cmd, cc in zip(conf["sections"][0]["commands"], case["cmds"]):
+                cur[0] = bytes.fromhex(cc.get("rnd", "00000000"))
+                for key, value in cmd.items():
+                    value.update({"keyblobs": conf.get("keyblobs", [])})
+                    c = pyres(helper.get_command(key), value)
+                    out.append(c if c[0] != "ok" else ("ok", (c[1].address, bytes(c[1].data))))
+        finally:
+            otfad_mod.random_bytes = saved
+        return out
+    r = pyres(real)
+    if not s.expect(r[0] == "ok" and len(r[1]) == len(case["cmds"]), case, "SB2.1 BD with keyblob / encrypt / keywrap commands is not processed", r[0]):
+        return None
+    res = r[1]
+    swap_eff = [b["swap"] if case["via"] == "dict" else False for b in blobs]
+    idx = []
+    wraps = {}
+    for c, rc in zip(case["cmds"], res):
+        b = blobs[c["id"]]
+        if c["op"] == "encrypt":
+            data = mk_image(c["data"][1], c["data"][0])
+            i = bt.add(f"sb21_enc {b['s']} {b['e']} {b['key']} {b['ctr']} {int(swap_eff[c['id']])} {c['addr']} {tok(data)}")
+        else:
+            i = bt.add(f"sb21_kw {b['s']} {b['e']} {b['key']} {b['ctr']} {case['kek']} {c['rnd']}")
+            if rc[0] == "ok":
+                wraps[c["id"]] = rc[1][1]
+        s.expect(rc[0] != "ok" or rc[1][0] == c["addr"], case, "SB2.1 load command carries another address than the BD file says", rc)
+        idx.append(i)
+    # the engine programmed from the wrapped key blobs (in key-blob order) reads every encrypted load back at its LOAD address
+    hw = []
+    if len(wraps) == len(blobs):
+        table = b"".join(wraps[i] for i in range(len(blobs)))
+        un = bt.add(f"otfad_unwrap {case['kek']} - 0 0 {len(blobs)} {tok(table)}")
+        for c, rc in zip(case["cmds"], res):
+            if c["op"] == "encrypt" and rc[0] == "ok":
+                hw.append((c, rc[1][1], bt.add(f"otfad_hwtab {case['kek']} - 0 0 {len(blobs)} {tok(table)} {int(swap_eff[c['id']])} {c['addr']} {tok(rc[1][1])}")))
+    else:
+        un = None
+
+    def finish():
+        for c, rc, i in zip(case["cmds"], res, idx):
+            s.compare(case, "ok:" + hexs(rc[1][1]) if rc[0] == "ok" else rc[0], bt[i], f"SB2.1 {c['op']} command: model differs")
+        if un is not None and bt[un] is not None:
+            got = bt[un][3:].split("|")
+            for i, b in enumerate(blobs):
+                # BD convention: RO/ADE/VLD are the low bits of `end`
+                endw = (((b["e"] - 1) | 0x3FF) & ~7) | (b["e"] & 7)
+                want = f"{b['key']}:{b['ctr']}:{b['s']}:{endw}:1"
+                s.expect(i < len(got) and got[i] == want, case,
+                         "SB2.1 keywrap: the wrapped key blob does not unwrap to the key/counter/range/flags of the BD keyblob (flags = low bits of `end`)",
+                         got[i] if i < len(got) else None, want)
+        for c, ct, i in hw:
+            if bt[i] is None:
+                continue
+            b = blobs[c["id"]]
+            data = mk_image(c["data"][1], c["data"][0])
+            got = unhex_ok(bt[i])
+            s.expect(got is not None and got[:len(data)] == data, case,
+                     "SB2.1 encrypt + keywrap: the engine programmed from the wrapped key blobs does not read the loaded data back at the load address",
+                     {"load_address": hex(c["addr"]), "blob_start": hex(b["s"]), "end": hex(b["e"])}, "plaintext")
+    return finish
+
+
+# =============================================================================================== nxpimage CLI (load_from_config + written files)
+def cli_data(seed, n):
+    """Data blob for the CLI stream; a file whose whole content is 7-bit ASCII is sniffed as a text format by
+    BinaryImage.load_binary_image (open finding of C16, not the subject here): never generate one."""
+    d = bytearray(mk_image(seed, n))
+    if d and all(b < 0x80 for b in d):
+        d[0] |= 0x80
+    return bytes(d)
+
+
+def cli_invoke(args):
+    from click.testing import CliRunner
+    from spsdk.apps import nxpimage
+    res = CliRunner().invoke(nxpimage.main, args)
+    if res.exit_code != 0:
+        raise RuntimeError(f"nxpimage {' '.join(args[:2])} exit {res.exit_code}: {str(res.exception)[:300]}")
+    return res.output
+
+
+def eval_cli(s, bt, case):
+    import json
+    import os
+    import shutil
+    kind = case["k"]
+    s.note(case, nontrivial=True, cls=kind + "/" + case.get("family", "-"))
+    d = os.path.join(os.environ.get("VERIF_SCRATCH", "/tmp"), "c13cli")
+    shutil.rmtree(d, ignore_errors=True)
+    os.makedirs(d)
+
+    def rd(name):
+        with open(os.path.join(d, "out", name), "rb") as fh:
+            return fh.read()
+    if kind == "cli_otfad":
+        ta, blobs, scr = case["ta"], case["blobs"], case["scr"]
+        datas = [(a, cli_data(seed, n)) for a, n, seed in case["data"]]
+        with open(os.path.join(d, "kek.bin"), "wb") as fh:
+            fh.write(bytes.fromhex(case["kek"]))
+        cfg = {"family": case["family"], "output_folder": "out", "output_name": "whole", "keyblob_name": "table", "encrypted_name": "blobs",
+               "generate_readme": False, "kek": "kek.bin", "otfad_table_address": hex(ta), "data_blobs": [], "key_blobs": []}
+        for j, (a, dta) in enumerate(datas):
+            with open(os.path.join(d, f"d{j}.bin"), "wb") as fh:
+                fh.write(dta)
+            cfg["data_blobs"].append({"data": f"d{j}.bin", "address": hex(a)})
+        for b in blobs:
+            cfg["key_blobs"].append({"aes_key": "0x" + b["key"], "aes_ctr": "0x" + b["ctr"], "start_address": hex(b["s"]), "end_address": hex(b["e"]),
+                                     "aes_decryption_enable": bool(b["fl"] & 2), "valid": bool(b["fl"] & 1), "read_only": bool(b["fl"] & 4)})
+        if scr:
+            cfg["key_scramble"] = {"key_scramble_mask": hex(scr[0]), "key_scramble_align": hex(scr[1])}
+        with open(os.path.join(d, "cfg.json"), "w") as fh:
+            json.dump(cfg, fh)
+        r = pyres(cli_invoke, ["otfad", "export", "-c", os.path.join(d, "cfg.json")])
+        if not s.expect(r[0] == "ok", case, "nxpimage otfad export failed on a valid configuration", r):
+            return None
+        whole, table = rd("whole.bin"), rd("table.bin")
+
+        def api():
+            from spsdk.utils.crypto.otfad import KeyBlob, OtfadNxp
+            from spsdk.utils.database import DatabaseManager, get_db
+            from spsdk.utils.images import BinaryImage
+            lo = min([a for a, _ in datas] + [b["s"] for b in blobs])
+            binaries = BinaryImage("enc", offset=lo - ta)
+            for j, (a, dta) in enumerate(datas):
+                binaries.add_image(BinaryImage(f"d{j}", offset=a - lo, binary=dta))
+            use_scr = scr if get_db(case["family"], "latest").get_bool(DatabaseManager.OTFAD, "supports_key_scrambling", False) else None
+            kbs = [KeyBlob(b["s"], b["e"], bytes.fromhex(b["key"]), bytes.fromhex(b["ctr"]), b["fl"], zero_fill=bytes(4)) for b in blobs]
+            o = OtfadNxp(case["family"], bytes.fromhex(case["kek"]), ta, None, use_scr[0] if use_scr else None, use_scr[1] if use_scr else None, binaries)
+            for i, kb in enumerate(kbs):
+                o[i] = kb
+            return o.binary_image(data_alignment=512).export(), o.keyblob_byte_swap_cnt, o.reversed_scramble_key, len(o._key_blobs), use_scr
+        ra = pyres(api)
+        if not s.expect(ra[0] == "ok", case, "OtfadNxp API path raised where the CLI succeeded", ra):
+            return None
+        mem, sc, rev, nall, use_scr = ra[1]
+        s.expect(mem == whole, case, "nxpimage otfad export: the written whole image differs from OtfadNxp.binary_image().export()", len(whole), len(mem))
+        s.expect(whole[:len(table)] == table and len(table) >= 64 * nall, case, "nxpimage otfad export: the written key-blob table file is not the head of the whole image")
+        idx = [(a, dta, bt.add(f"otfad_hwtab {case['kek']} {scr_tok(use_scr)} {int(rev)} {sc} {nall} {tok(table[:64 * nall])} 0 {a} "
+                               f"{tok(whole[a - ta:a - ta + ceil16(len(dta))])}")) for a, dta in datas]
+
+        def fin():
+            for a, dta, i in idx:
+                hw = unhex_ok(bt[i]) if bt[i] is not None else dta
+                s.expect(hw is not None and hw[:len(dta)] == dta, case,
+                         "nxpimage otfad export: the engine programmed from the written table file does not read a data blob back from the written image", hex(a))
+        return fin
+    if kind == "cli_iee":
+        ta, blobs = case["ta"], case["blobs"]
+        datas = [(a, cli_data(seed, n)) for a, n, seed in case["data"]]
+        cfg = {"family": case["family"], "output_folder": "out", "output_name": "whole", "keyblob_name": "kb", "encrypted_name": "blobs",
+               "generate_readme": False, "generate_fuses_script": False, "keyblob_address": hex(ta), "data_blobs": [],
+               "ibkek1": "0x" + case["k1"], "ibkek2": "0x" + case["k2"], "key_blobs": []}
+        for j, (a, dta) in enumerate(datas):
+            with open(os.path.join(d, f"d{j}.bin"), "wb") as fh:
+                fh.write(dta)
+            cfg["data_blobs"].append({"data": f"d{j}.bin", "address": hex(a)})
+        for b in blobs:
+            cfg["key_blobs"].append({"region_lock": b["lock"], "aes_mode": IEE_MODES[b["mode"]], "key_size": "CTR128XTS256" if b["ks"] == 0 else "CTR256XTS512",
+                                     "page_offset": b["po"], "key1": "0x" + b["k1"], "key2": "0x" + b["k2"], "start_address": hex(b["s"]), "end_address": hex(b["e"])})
+        with open(os.path.join(d, "cfg.json"), "w") as fh:
+            json.dump(cfg, fh)
+        r = pyres(cli_invoke, ["iee", "export", "-c", os.path.join(d, "cfg.json")])
+        if not s.expect(r[0] == "ok", case, "nxpimage iee export failed on a valid configuration", r):
+            return None
+        whole = rd("whole.bin")
+        kb = rd("kb.bin") if os.path.exists(os.path.join(d, "out", "kb.bin")) else None
+        if kb is None:
+            return None                   # family without generated key blob
+        s.expect(whole[:len(kb)] == kb and len(kb) % 384 == 0, case, "nxpimage iee export: the written key-blob file is not the head of the whole image")
+        i_un = bt.add(f"iee_unwrap {case['k1']} {case['k2']} {ta} {len(blobs)} {tok(kb)}")
+        idx = [(a, dta, bt.add(f"iee_hwtab {case['k1']} {case['k2']} {ta} {len(blobs)} {tok(kb)} {a} {tok(whole[a - ta:a - ta + ceil16(len(dta))])}"))
+               for a, dta in datas]
+
+        def fin():
+            if bt[i_un] is not None:
+                exp = []
+                for b in blobs:
+                    k1 = bytes.fromhex(b["k1"]).ljust(32, b"\0")
+                    k2 = bytes.fromhex(b["k2"]).ljust(32, b"\0")
+                    exp.append(f"{0x5A if b['ks'] == 0 else 0xA5}:{[0x6A, 0xA6, 0x66, 0xAA, 0x19][b['mode']]}:{b['po']}:{k1.hex()}:{k2.hex()}:{b['s']}:{b['e']}")
+                s.expect(bt[i_un] == "ok:" + "|".join(exp), case, "nxpimage iee export: the written key-blob file does not decrypt/parse to the configuration", bt[i_un])
+            for a, dta, i in idx:
+                hw = unhex_ok(bt[i]) if bt[i] is not None else dta
+                s.expect(hw is not None and hw[:len(dta)] == dta, case,
+                         "nxpimage iee export: the engine programmed from the written key-blob file does not read a data blob back from the written image", hex(a))
+        return fin
+    # ---- BEE: counter and KIB are drawn at random by load_from_config; the written headers are all the ROM needs
+    img = cli_data(case["img"][1], case["img"][0])
+    base, engines = case["base"], case["engines"]
+    with open(os.path.join(d, "in.bin"), "wb") as fh:
+        fh.write(img)
+    sel = "both" if all(engines) else ("engine0" if engines[0] else "engine1")
+    cfg = {"output_folder": "out", "input_binary": "in.bin", "output_name": "enc", "header_name": "hdr", "engine_selection": sel,
+           "engine_key_selection": "random", "base_address": hex(base), "bee_engine": []}
+    for e in engines:
+        if e:
+            cfg["bee_engine"].append({"bee_cfg": {"user_key": "0x" + e["key"], "protected_region": [
+                {"start_address": hex(st), "length": hex(ln), "protected_level": e.get("level", 0)} for st, ln in e["facs"]]}})
+    with open(os.path.join(d, "cfg.json"), "w") as fh:
+        json.dump(cfg, fh)
+    r = pyres(cli_invoke, ["bee", "export", "-c", os.path.join(d, "cfg.json")])
+    if not s.expect(r[0] == "ok", case, "nxpimage bee export failed on a valid configuration", r):
+        return None
+    ct = rd("enc.bin")
+    hdrs = [(e, rd(f"hdr{i}.bin")) for i, e in enumerate(engines) if e]
+    s.expect(len(img) <= len(ct) <= ceil16(len(img)) and all(len(h) == 0x200 for _, h in hdrs), case, "nxpimage bee export: wrong size of a written file")
+    i_hw = bt.add(f"bee_hwhdr {base} {tok(ct)} {len(hdrs)} " + " ".join(f"{e['key']} {tok(h)}" for e, h in hdrs))
+    i_us = [(e, bt.add(f"bee_unhdr {e['key']} {tok(h)}")) for e, h in hdrs]
+
+    def fin():
+        for e, i in i_us:
+            if bt[i] is None:
+                continue
+            parts = bt[i].split(":")
+            s.expect(len(parts) == 4 and parts[1] == e["key"] and parts[2].endswith("00000000") and parts[3] == ",".join(f"{st}+{ln}" for st, ln in e["facs"]), case,
+                     "nxpimage bee export: a written region header does not decrypt/parse to the configured FAC regions", bt[i])
+        if bt[i_hw] is not None:
+            hw = unhex_ok(bt[i_hw])
+            s.expect(hw is not None and hw[:len(img)] == img, case,
+                     "nxpimage bee export: the engine programmed from the written headers does not read the plaintext back from the written image")
+    return fin
+
+
+def gen_cli_cases(rng, n):
+    out = []
+    nx = gen_nxp_cases(rng, 2 * ((n + 2) // 3))
+    for j in range(n):
+        if j % 3 == 2:
+            c = gen_bee_case(rng, False)
+            while not all(e is None or e["facs"] for e in c["engines"]) or (c["engines"][0] is None and c["engines"][1] is None):
+                c = gen_bee_case(rng, False)
+            c["k"] = "cli_bee"
+            out.append(c)
+        else:
+            c = nx.pop(0)
+            while (j % 3 == 0) != (c["k"] == "otfadnxp"):
+                nx.append(c)
+                c = nx.pop(0)
+            if c["k"] == "otfadnxp":
+                c["k"] = "cli_otfad"
+                c["blobs"] = c["blobs"][:4]
+            else:
+                c["k"] = "cli_iee"
+                for b in c["blobs"]:
+                    b["po"] = b["po"] & M32
+            out.append(c)
+    return out
+
+
 # =============================================================================================== fixed regression cases
 def fixed_cases():
     key, ctr = "000102030405060708090a0b0c0d0e0f", "2021222324252627"
@@ -733,10 +1125,19 @@ def fixed_cases():
     out.append({"k": "bee", "img": [0x800, 8], "base": 0x0C10, "engines": [eng, None], "split": 0x400})
     out.append({"k": "bee", "img": [0x800, 9], "base": 0x1410, "engines": [None, eng], "split": 0x10})
     out.append({"k": "bee", "img": [33, 10], "base": 0x0FF0, "engines": [eng, None], "split": 16})
+    # fixes C13-5/6/7: constructor sizes; SB2.1 encrypt off the blob start; keywrap flags from the end address
+    out.append({"k": "ctor", "blob": {"s": 0x1000, "e": 0x1FFF, "key": "00" * 32, "ctr": "00" * 8, "fl": 3, "zf": "00000000", "crc": ""}})
+    out.append({"k": "ctor", "blob": {"s": 0x1000, "e": 0x1FFF, "key": "00" * 16, "ctr": "00" * 7, "fl": 3, "zf": "00000000", "crc": ""}})
+    sb = {"k": "sb21", "kek": "0102030405060708090a0b0c0d0e0f00", "via": "bd",
+          "blobs": [{"s": 0x08001000, "e": 0x08001FFF, "key": key, "ctr": ctr, "swap": False}, {"s": 0x08002000, "e": 0x080023FD, "key": key, "ctr": ctr, "swap": False}],
+          "cmds": [{"op": "encrypt", "id": 0, "addr": 0x08001400, "data": [100, 11]}, {"op": "encrypt", "id": 1, "addr": 0x08002000, "data": [4, 12]},
+                   {"op": "keywrap", "id": 0, "addr": 0x08000000, "rnd": "01020304"}, {"op": "keywrap", "id": 1, "addr": 0x08000040, "rnd": "05060708"}]}
+    out.append(sb)
+    out.append(dict(sb, via="dict", blobs=[dict(b, swap=True) for b in sb["blobs"]]))
     return out
 
 
-EVAL = {"otfad": eval_otfad, "iee": eval_iee, "bee": eval_bee, "kb": eval_direct, "tab": eval_direct, "ieekb": eval_direct,
+EVAL = {"ctor": eval_ctor, "sb21": eval_sb21, "cli_otfad": eval_cli, "cli_iee": eval_cli, "cli_bee": eval_cli, "otfad": eval_otfad, "iee": eval_iee, "bee": eval_bee, "kb": eval_direct, "tab": eval_direct, "ieekb": eval_direct,
         "beeblk": eval_direct, "otfadnxp": eval_nxp, "ieenxp": eval_nxp}
 
 
@@ -802,6 +1203,19 @@ def run(ck):
     s = ck.stream("nxp_glue", "OtfadNxp / IeeNxp .binary_image().export() for every supported family: data blobs cut out of the exported memory "
                   "image are read back by the engine programmed from the exported table (family byte-swap count / reversed scramble key)")
     run_cases(s, drv, gen_nxp_cases(rng, ck.budget(60, 1200)))
+
+    s = ck.stream("keyblob_ctor", "KeyBlob constructor on valid / invalid address, flag, key-size and counter-size combinations: accept/reject vs "
+                  "the model; wrong key or counter sizes must be refused")
+    run_cases(s, drv, gen_ctor_cases(rng, ck.budget(150, 3000)))
+
+    s = ck.stream("sb21", "OTFAD through SB2.1: BD text (real BD lexer/parser) or parsed YAML dictionary with 1..4 keyblob blocks (flag bits as "
+                  "low bits of `end`), encrypt(id){load file > addr} at / off the key-blob start and keywrap(id) commands, run through "
+                  "SB21Helper: command bytes vs the model; the engine programmed from the WRAPPED blobs reads the loads back at their load address")
+    run_cases(s, drv, [gen_sb21_case(rng) for _ in range(ck.budget(60, 1500))], chunk=30)
+
+    s = ck.stream("cli", "nxpimage otfad|iee|bee export through click's CliRunner (load_from_config, schema validation, written files): whole image "
+                  "= API path; the engine programmed from the WRITTEN key-blob table / key-blob file / BEE region headers reads the data back")
+    run_cases(s, drv, gen_cli_cases(rng, ck.budget(15, 300)), chunk=6)
 
 
 def replay(ck, data):
